@@ -8,6 +8,8 @@
                  creation on every path before the local goes out of scope
  C13.creator     after the call that creates the OS thread, the creating thread never stores to that object's finished flag
                  (directly or through the copy constructor / operator= - call-graph closure over Thread members)
+ C13.owner       a Thread member that copies another Thread's OS handle leaves the source with 0 on every path (single owner: the
+                 destructor detaches, join() on a detached handle does not wait)
  C13.join        parallel_for / parallel_invoke join every thread they started before returning; delete follows join
  C13.partition   parallel_for: worker count n is evaluated over a grid of (requested threads, range length): 1 <= n <= both when the
                  range is non-empty; the Context carries start = i0 + worker index, end = i1, stride = n, and beginfN iterates
@@ -33,6 +35,7 @@ def run(ctx):
     check_join(ctx, prog)
     check_partition(ctx, prog)
     check_wrappers(ctx, prog)
+    check_owner(ctx, prog)
     return __doc__.split('\n\n', 1)[1]
 
 
@@ -168,7 +171,7 @@ def check_trampolines(ctx, prog):
                 if is_flag_store(e, 1):
                     return st | frozenset([FLAG])
                 return st
-            reached, _ = cfgm.dataflow(cfg, frozenset(), step)
+            reached, _ = cfgm.dataflow(cfg, frozenset(), cfgm.follow_helpers(prog, f, step))
             ctx.evaluations += sum(len(v) for v in reached.values())
             exits = reached.get(cfg.exit.id, set())
             for st in exits:
@@ -574,8 +577,39 @@ def check_wrappers(ctx, prog):
         ctx.analysed(fs[0])
         return fs[0]
 
-    def lib_calls(f):
-        return [e for e in fn_exprs(f) if e.get('k') == 'call' and not e.get('clsp') and (e.get('fn') or '').startswith(('sem_', 'pthread_'))]
+    def subst(e, env):
+        """e with the parameters in env replaced by the argument expressions of the call site"""
+        if not isinstance(e, dict) or not env:
+            return e
+        if e.get('k') == 'var' and e.get('id') in env:
+            return env[e['id']]
+        out = dict(e)
+        for key in ir.EXPR_CHILD_KEYS:
+            if isinstance(e.get(key), dict):
+                out[key] = subst(e[key], env)
+        for key in ir.EXPR_LIST_KEYS:
+            if isinstance(e.get(key), list):
+                out[key] = [subst(x, env) if isinstance(x, dict) else x for x in e[key]]
+        return out
+
+    def lib_calls(f, env=None, depth=2):
+        """the sem_* / pthread_* calls f makes, directly or in a helper of the same file / class; arguments are read through
+        single-assignment locals and helper parameters (each returned call carries them in 'a')"""
+        out = []
+        for e in fn_exprs(f):
+            if e.get('k') != 'call':
+                continue
+            if not e.get('clsp') and (e.get('fn') or '').startswith(('sem_', 'pthread_')):
+                c_ = dict(e)
+                c_['a'] = [subst(q.expand(f, a), env) for a in e.get('a', [])]
+                out.append(c_)
+            elif depth > 0 and e.get('fn'):
+                for h in prog.fn(e['fn'], e.get('sig')):
+                    if h.get('body') and h is not f and (h.get('file') == f.get('file') or (h.get('clsp') and h.get('clsp') == f.get('clsp'))):
+                        env2 = dict((p_['id'], subst(q.expand(f, a), env)) for p_, a in zip(h['params'], e.get('a', [])))
+                        out += lib_calls(h, env2, depth - 1)
+                        break
+        return out
     f = one('asl::Semaphore::post', '()')
     c = lib_calls(f)
     ctx.check(len(c) == 1 and c[0]['fn'] == 'sem_post', 'C13.wrappers', f['pq'], 'Semaphore::post():one sem_post', fwhere(f), 'one sem_post', 'Semaphore::post() does not call sem_post exactly once')
@@ -646,7 +680,131 @@ def check_wrappers(ctx, prog):
     f = one('asl::Condition::signal')
     c = lib_calls(f)
     ctx.check(len(c) == 1 and c[0]['fn'] in ('pthread_cond_broadcast',), 'C13.wrappers', f['pq'], 'Condition::signal():wakes all waiters', fwhere(f), 'pthread_cond_broadcast', 'Condition::signal() does not broadcast: waiters other than the first never see the signal')
+    # signal() reaches the broadcast on every path; a signal skipped on some condition over member state (a waiter count) is
+    # lost unless every wait variant maintains that state before it blocks
+    fsig = f
+    gs = cfgm.CFG(fsig)
+
+    def st_sig(nd, st):
+        if nd.kind == 'ev' and nd.e is not None and nd.e.get('k') == 'call' and (nd.e.get('fn') or '') in ('pthread_cond_broadcast', 'pthread_cond_signal'):
+            return True
+        return st
+    rs, _ = cfgm.dataflow(gs, False, cfgm.follow_helpers(prog, fsig, st_sig))
+    exs = rs.get(gs.exit.id, set())
+    role = 'Condition::signal():no path skips the wake-up'
+    if exs and all(exs):
+        ctx.ok('C13.wrappers', fsig['pq'], role, fwhere(fsig), 'every path through signal() wakes the waiters')
+    else:
+        guard_fields = set(w.get('f') for nd in gs.nodes if nd.kind == 'br' and nd.e is not None for w in walk_expr(nd.e) if w.get('k') == 'mem' and w.get('f'))
+        waits = [g for g in prog.functions if g.get('cls') == 'asl::Condition' and g.get('body') and any(c_['fn'] in ('pthread_cond_wait', 'pthread_cond_timedwait') for c_ in lib_calls(g))]
+        lacking = []
+        for g in waits:
+            written = set()
+            for e in q.fn_exprs_inlined(prog, g):
+                tgt = None
+                if e.get('k') == 'bin' and e.get('op', '').endswith('=') and e['op'] not in ('==', '!=', '<=', '>='):
+                    tgt = strip_lv(e['x'])
+                elif e.get('k') == 'un' and e.get('op') in ('post++', 'post--', 'pre++', 'pre--'):
+                    tgt = strip_lv(e['e'])
+                if tgt is not None and tgt.get('k') == 'mem':
+                    written.add(tgt.get('f'))
+            if not guard_fields or not guard_fields <= written:
+                lacking.append(g)
+        if not lacking and waits:
+            ctx.ok('C13.wrappers', fsig['pq'], role, fwhere(fsig), 'signal() is conditional on %s, which every wait variant maintains' % sorted(guard_fields))
+        else:
+            ctx.violation('C13.wrappers', fsig['pq'], role, fwhere(fsig), 'a path through signal() skips the wake-up (condition over %s) and %s does not maintain that state before blocking: a signal issued while only such waiters are blocked is lost (they sleep until their timeout)' % (
+                sorted(guard_fields) or 'non-member state', ', '.join('%s%s' % (g['n'], g['sig']) for g in lacking) or 'no wait variant'))
     # join(): pthread_join on the handle
     f = one('asl::Thread::join')
     c = lib_calls(f)
     ctx.check(len(c) == 1 and c[0]['fn'] == 'pthread_join' and strip(c[0]['a'][0]).get('f') == '_thread', 'C13.wrappers', f['pq'], 'Thread::join():joins its own handle', fwhere(f), 'pthread_join(_thread, ..)', 'Thread::join() does not pthread_join its own handle')
+
+
+def check_owner(ctx, prog):
+    """C13.owner: one Thread object owns an OS handle.  The destructor detaches (POSIX) / closes (Windows) a non-zero handle and
+    join() on a detached handle returns at once, so a member that copies the handle of another Thread (`Thread(const Thread&)`,
+    `operator=`) must take it away from the source on every path: afterwards the source holds 0.  Decided on the CFG of every
+    Thread member with a Thread reference parameter whose `_thread` it copies; the reset may sit in a helper called on the
+    source."""
+    n = 0
+    for f in prog.functions:
+        if f.get('cls') != 'asl::Thread' or not f.get('body') or not f.get('params'):
+            continue
+        srcs = [p_ for p_ in f['params'] if T(f, p_['t']).get('ref') and T(f, T(f, p_['t']).get('to')).get('rec') == 'asl::Thread']
+        if len(srcs) != 1:
+            continue
+        src = srcs[0]
+
+        def on_src(m):
+            """member expression `_thread` of the source parameter (through const_cast / reference casts)"""
+            m = strip_lv(m)
+            if m.get('k') != 'mem' or m.get('f') != '_thread':
+                return False
+            b = strip_lv(m.get('b') or {})
+            while b.get('k') in ('cast', 'paren'):
+                b = strip_lv(b['e'])
+            return b.get('k') == 'var' and b.get('id') == src['id']
+
+        def on_this(m):
+            m = strip_lv(m)
+            return m.get('k') == 'mem' and m.get('f') == '_thread' and strip_lv(m.get('b') or {'k': 'this'}).get('k') == 'this'
+
+        copies = [i_ for i_ in (f.get('inits') or []) if i_.get('field') == '_thread' and any(on_src(w) for w in walk_expr(i_.get('e') or {}))]
+        copies += [e for e in fn_exprs(f) if e.get('k') == 'bin' and e.get('op') == '=' and on_this(e['x']) and any(on_src(w) for w in walk_expr(e['y']))]
+        if not copies:
+            continue
+        n += 1
+        ctx.analysed(f)
+
+        def resets_own_handle(g, depth=0):
+            """every path through member g stores 0 to this->_thread"""
+            gc = cfgm.CFG(g)
+
+            def st_(nd, st):
+                if nd.kind == 'ev' and nd.e is not None and nd.e.get('k') == 'bin' and nd.e.get('op') == '=' and on_this_g(nd.e['x']) and const_val(nd.e['y']) == 0:
+                    return True
+                return st
+
+            def on_this_g(m):
+                m = strip_lv(m)
+                while m.get('k') in ('cast', 'paren'):
+                    m = strip_lv(m['e'])
+                if m.get('k') != 'mem' or m.get('f') != '_thread':
+                    return False
+                b = strip_lv(m.get('b') or {'k': 'this'})
+                while b.get('k') in ('cast', 'paren'):
+                    b = strip_lv(b['e'])
+                if b.get('k') == 'un' and b.get('op') == '*':
+                    b = strip_lv(b['e'])
+                    while b.get('k') in ('cast', 'paren'):
+                        b = strip_lv(b['e'])
+                return b.get('k') == 'this'
+            r_, _ = cfgm.dataflow(gc, False, st_)
+            ex = r_.get(gc.exit.id, set())
+            return bool(ex) and all(ex)
+
+        def step(nd, st):
+            if nd.kind != 'ev' or nd.e is None:
+                return st
+            e = nd.e
+            if e.get('k') == 'bin' and e.get('op') == '=' and on_src(e['x']) and const_val(e['y']) == 0:
+                return True
+            if e.get('k') == 'call' and e.get('obj') is not None:
+                o = strip_lv(e['obj'])
+                while o.get('k') in ('cast', 'paren'):
+                    o = strip_lv(o['e'])
+                if o.get('k') == 'var' and o.get('id') == src['id']:
+                    for g in prog.fn(e.get('fn'), e.get('sig')):
+                        if g.get('body') and resets_own_handle(g):
+                            return True
+            return st
+        g_ = cfgm.CFG(f)
+        reached, _ = cfgm.dataflow(g_, False, step)
+        ctx.evaluations += sum(len(x) for x in reached.values())
+        ex = reached.get(g_.exit.id, set())
+        role = '%s%s:the handle is taken from the source' % (f['n'], f['sig'])
+        ctx.check(bool(ex) and all(ex), 'C13.owner', f['pq'], role, fwhere(f), 'after copying `%s._thread` the source is left with 0 on every path' % src.get('n'),
+                  '%s%s copies the OS handle of `%s` but a path leaves the source holding it too: two Thread objects own one handle, the destructor of either detaches it and join() on the other returns '
+                  'immediately while the task is still running (parallel_invoke joins through such copies)' % (f['n'], f['sig'], src.get('n')))
+    ctx.floor('C13.owner members copying a handle', n, 1)
